@@ -50,3 +50,69 @@ def permission_defaults(repo):
             elif re.search(r'\bdisabled by default', l):
                 out[cur] = False
     return out
+
+
+def split_params(sig):
+    """'if<T>(cond: bool, then: T, else: T)->T' -> (['cond','then','else'], ['bool','T','T'], 'T')"""
+    m = re.match(r'^[A-Za-z_0-9]+\s*(<[^(]*>)?\s*\((.*)\)\s*(?:->\s*(.*))?$', sig.strip())
+    if not m:
+        return None
+    inner = m.group(2)
+    ret = (m.group(3) or '').strip()
+    parts = []
+    depth = 0
+    cur = ''
+    for ch in inner:
+        if ch in '<([':
+            depth += 1
+        elif ch in '>)]':
+            if not cur.endswith('-'):
+                depth -= 1
+        if ch == ',' and depth == 0:
+            parts.append(cur)
+            cur = ''
+        else:
+            cur += ch
+    if cur.strip():
+        parts.append(cur)
+    names, types = [], []
+    for p in parts:
+        if ':' in p:
+            n, t = p.split(':', 1)
+            names.append(n.strip())
+            types.append(t.strip())
+        else:
+            names.append(p.strip())
+            types.append('')
+    return names, types, ret
+
+
+def short_circuits(repo):
+    """documented short-circuiting functions: [{name, file, line, params, types, ret, sc:[indices], note}]"""
+    out = []
+    for f in std_functions(repo):
+        text = ' '.join(f['text'])
+        m = re.search(r'[Tt]his function is short-circuiting([^.]*)\.', text)
+        if not m:
+            continue
+        sp = split_params(f['sig'])
+        if not sp:
+            out.append({'name': f['name'], 'file': f['file'], 'line': f['line'], 'params': None, 'sc': [], 'note': 'unparsed signature'})
+            continue
+        names, types, ret = sp
+        tail = m.group(1)
+        cand = []
+        mf = re.match(r'\s*for\s+(.*?)(?:,?\s+and (?:will|does)|$)', tail)
+        note = ''
+        if mf:
+            cand = re.findall(r'`([A-Za-z_0-9]+)`', mf.group(1))
+        else:
+            me = re.search(r'only evaluate\s+`([A-Za-z_0-9]+)`', tail)
+            if me:
+                cand = [me.group(1)]
+        sc = [names.index(c) for c in cand if c in names]
+        if not sc:
+            sc = [len(names) - 1]
+            note = 'named parameter %r not in signature; assumed the last parameter' % (cand,)
+        out.append({'name': f['name'], 'file': f['file'], 'line': f['line'], 'params': names, 'types': types, 'ret': ret, 'sc': sorted(set(sc)), 'note': note})
+    return out
